@@ -101,6 +101,19 @@ def _body_wo_doc(node):
     return body
 
 
+def _is_generator(node):
+    stack = list(node.body)
+    while stack:
+        n = stack.pop()
+        if isinstance(n, (ast.Yield, ast.YieldFrom)):
+            return True
+        if isinstance(n, (ast.FunctionDef, ast.AsyncFunctionDef, ast.Lambda,
+                          ast.ClassDef)):
+            continue
+        stack.extend(ast.iter_child_nodes(n))
+    return False
+
+
 def _eligible(kind, owner, node):
     if isinstance(node, ast.AsyncFunctionDef):
         return None
@@ -124,9 +137,11 @@ def _eligible(kind, owner, node):
         if n is node:
             continue
         if isinstance(n, (ast.FunctionDef, ast.AsyncFunctionDef, ast.ClassDef,
-                          ast.Yield, ast.YieldFrom, ast.Await, ast.Global,
-                          ast.Nonlocal)):
+                          ast.Await, ast.Global, ast.Nonlocal)):
             return None
+        if isinstance(n, ast.Return) and n.value is not None and \
+                _is_generator(node):
+            return None     # a generator that also returns a value
         if isinstance(n, ast.stmt):
             n_stmts += 1
         if isinstance(n, ast.Name) and n.id == node.name:
@@ -547,6 +562,27 @@ def _tailify(stmts):
                        orelse=orelse), st)
             out.append(new)
             return out
+        if isinstance(st, ast.Try) and not st.finalbody and \
+                not any(_contains_return(b) for b in st.body) and \
+                _contains_return(st):
+            # try: BODY / except E: ...return x / REST  ->
+            # try: BODY / except E: ...return x / else: REST   (REST runs
+            # only when BODY raised nothing, outside the handlers: what an
+            # else clause is); then every return is a tail of the try
+            rest = stmts[i + 1:]
+            orelse = _tailify(list(st.orelse) + copy.deepcopy(rest)) \
+                if rest else _tailify(list(st.orelse))
+            handlers = []
+            for h in st.handlers:
+                hb = _tailify(h.body)
+                if rest and not _ends_abrupt(hb):
+                    hb = _tailify(hb + copy.deepcopy(rest))
+                handlers.append(ast.copy_location(ast.ExceptHandler(
+                    type=h.type, name=h.name, body=hb or [_pass(h)]), h))
+            out.append(ast.copy_location(ast.Try(
+                body=st.body, handlers=handlers, orelse=orelse,
+                finalbody=[]), st))
+            return out
         if _contains_return(st):
             raise _Site()
         out.append(st)
@@ -656,6 +692,17 @@ def _finish(stmts, mode, targets, at):
         orelse = _finish(last.orelse, mode, targets, at)
         return stmts[:-1] + [ast.copy_location(
             ast.If(test=last.test, body=body, orelse=orelse), last)]
+    if isinstance(last, ast.Try) and _contains_return(last) and \
+            not last.finalbody:
+        handlers = [ast.copy_location(ast.ExceptHandler(
+            type=h.type, name=h.name,
+            body=_finish(h.body, mode, targets, at) or [_pass(h)]), h)
+            for h in last.handlers]
+        orelse = _finish(last.orelse, mode, targets, at) \
+            if last.orelse or mode == 'assign' else []
+        return stmts[:-1] + [ast.copy_location(ast.Try(
+            body=last.body, handlers=handlers, orelse=orelse,
+            finalbody=[]), last)]
     return stmts + none_stmt()
 
 
@@ -1098,8 +1145,19 @@ class Inliner:
         if isinstance(st, ast.Assign) and st.value is call and \
                 len(st.targets) == 1 and isinstance(st.targets[0], ast.Name):
             target = st.targets[0].id
+        delegated = isinstance(st, ast.Expr) and \
+            isinstance(st.value, ast.YieldFrom) and st.value.value is call
+        if _is_generator(helper) and not delegated:
+            return [st]     # a generator is only written out under yield from
+        if delegated and not _is_generator(helper):
+            return [st]
         try:
             pre, body = _instantiate(helper, kind, call, idents, tag, target)
+            if delegated:
+                # `yield from gen(...)`: the generator's body, yields and all
+                body = _structured(body, 'discard', None, st)
+                done.add(id(call))
+                return pre + (body or [_pass(st)])
             if isinstance(st, ast.Return) and st.value is call:
                 if not _ends_abrupt(body):
                     body = body + [ast.copy_location(
@@ -2198,6 +2256,15 @@ class _Thread(ast.NodeTransformer):
             t, neg = second.test, False
             if isinstance(t, ast.UnaryOp) and isinstance(t.op, ast.Not):
                 t, neg = t.operand, True
+            if isinstance(t, ast.Compare) and len(t.ops) == 1 and \
+                    isinstance(t.ops[0], (ast.Is, ast.IsNot)) and \
+                    isinstance(t.left, ast.Name) and \
+                    isinstance(t.comparators[0], ast.Constant) and \
+                    t.comparators[0].value is None:
+                done = self._thread_none(out, i, first, second, t, neg)
+                if done:
+                    i = max(i - 1, 0)
+                continue
             if not isinstance(t, ast.Name):
                 continue
             r = t.id
@@ -2238,6 +2305,55 @@ class _Thread(ast.NodeTransformer):
             self.count += 1
             i = max(i - 1, 0)
         return out
+
+    def _thread_none(self, out, i, first, second, t, neg):
+        """    if c: r = Error(a)                if c: use(Error(a))
+               else: r = None             ->
+               if r is not None: use(r)
+        Every end of the first statement binds r to None or to a newly
+        built object (a call of a CapWords name: never None); r is read
+        once more at most, inside the branch taken when it is not None."""
+        r = t.left.id
+        loads, stores = self.uses[-1]
+        leaves = self._leaves(first, r)
+        if leaves is None or stores.get(r) != len(leaves) or \
+                len(leaves) > 4 or loads.get(r, 0) > 2:
+            return False
+        some = isinstance(t.ops[0], ast.IsNot) != neg
+        yes, no = (second.body, second.orelse) if some else \
+            (second.orelse, second.body)
+        uses = [n for b in yes for n in ast.walk(b)
+                if isinstance(n, ast.Name) and n.id == r]
+        if len(uses) != loads.get(r, 0) - 1 or any(
+                isinstance(n, ast.Name) and n.id == r
+                for b in no for n in ast.walk(b)):
+            return False
+
+        def built(v):
+            if not isinstance(v, ast.Call):
+                return False
+            fn = v.func
+            name = fn.attr if isinstance(fn, ast.Attribute) else \
+                getattr(fn, 'id', '')
+            return name[:1].isupper() and not name.isupper()
+        repl = {}
+        for lf in leaves:
+            v = lf.value
+            if isinstance(v, ast.Constant) and v.value is None:
+                new = copy.deepcopy(no) or [ast.copy_location(ast.Pass(),
+                                                              lf)]
+            elif built(v):
+                new = [_Subst({r: v}, {}).visit(b)
+                       for b in copy.deepcopy(yes)] or \
+                    [ast.copy_location(ast.Expr(value=v), lf)]
+            else:
+                return False
+            repl[id(lf)] = new
+        out[i - 1] = self._replace(first, repl)
+        flat = out[i - 1] if isinstance(out[i - 1], list) else [out[i - 1]]
+        out[i - 1:i + 1] = flat
+        self.count += 1
+        return True
 
     def _replace(self, st, repl):
         if id(st) in repl:
@@ -2368,6 +2484,46 @@ def thread_decisions(trees):
     return n
 
 
+def _split_selector_calls(trees, known):
+    """`select(job)(a, b)` as a statement, `select` a helper the census does
+    not know: `fn = select(job); fn(a, b)` - the helper is then inlined as
+    any other and the call through the local written out per branch."""
+    n = 0
+    for path, tree in trees.items():
+        mod = modname_of(path)
+        if not any(k.startswith(mod + '.') for k in known):
+            continue
+        helpers = {st.name for st in tree.body
+                   if isinstance(st, ast.FunctionDef) and
+                   '%s.%s' % (mod, st.name) not in known}
+        if not helpers:
+            continue
+        for node in ast.walk(tree):
+            for name in _BLOCKS:
+                lst = getattr(node, name, None)
+                if not (isinstance(lst, list) and lst and
+                        isinstance(lst[0], ast.stmt)):
+                    continue
+                out = []
+                for st in lst:
+                    v = st.value if isinstance(st, ast.Expr) else None
+                    if isinstance(v, ast.Call) and \
+                            isinstance(v.func, ast.Call) and \
+                            isinstance(v.func.func, ast.Name) and \
+                            v.func.func.id in helpers:
+                        tmp = '%s_selected' % v.func.func.id.strip('_')
+                        out.append(ast.copy_location(ast.Assign(
+                            targets=[ast.Name(id=tmp, ctx=ast.Store())],
+                            value=v.func, lineno=st.lineno), st))
+                        v.func = ast.copy_location(
+                            ast.Name(id=tmp, ctx=ast.Load()), v.func)
+                        n += 1
+                    out.append(st)
+                setattr(node, name, out)
+        ast.fix_missing_locations(tree)
+    return n
+
+
 def normalise(trees, known=None):
     """Inline the helpers that are not in the census; mutates `trees`
     ({path: ast.Module}); returns the log [(qname, sites, removed)]."""
@@ -2375,7 +2531,9 @@ def normalise(trees, known=None):
         known = baseline()
     clog = inline_new_constants(trees, known)
     n = desugar(trees)
+    n += _split_selector_calls(trees, known)
     log = clog + Inliner(trees, known).run()
+    n += desugar(trees)
     for t in trees.values():
         q = _Quantifiers()
         q.visit(t)
